@@ -1313,14 +1313,15 @@ impl ProtocolState {
         }
 
         if let Some(timeout_duration) = timeout_duration_option {
-            let timeout = now + timeout_duration;
+            // a timeout too large to be represented as an Instant can never fire
+            if let Some(timeout) = now.checked_add(timeout_duration) {
+                let timeout_record = OperationTimeoutRecord {
+                    id,
+                    timeout
+                };
 
-            let timeout_record = OperationTimeoutRecord {
-                id,
-                timeout
-            };
-
-            self.operation_ack_timeouts.push(Reverse(timeout_record));
+                self.operation_ack_timeouts.push(Reverse(timeout_record));
+            }
         }
     }
 
